@@ -58,6 +58,28 @@ CHECKS["C20"] = dict(
     technique="Coq proof (validator reflects declarative rules; cycle detectors sound and complete) + extraction-based correspondence on mutants",
     design="4/C20")
 
+CHECKS["C14"] = dict(
+    text="Specification's FieldsInSetCanMerge/SameResponseShape as an executable Coq function proved terminating on all documents (cyclic spreads included) and adequate w.r.t. an inductive declarative reading; the rule's two memo tables (PairSet, OrderedPairSet) modelled exactly with their laws proved; the memoised algorithm (steps A-J) modelled and proved never to skip a comparison on a weaker memo entry. Equivalence of the memoised algorithm with the specification function is NOT proved: it is checked on every run by comparing the real rule, the extracted specification function and the extracted memoised model on generated documents (also location-free ASTs), including the real rule's memo decision trace",
+    note="names interned; out of fragment (skipped and counted): untypable fields, __schema/__type, fragment arguments, @stream, duplicate argument names, block-string arguments; literal identity = same kind and source text after sorting input-object keys; C14_equiv is stated, not proved",
+    technique="Coq proof (spec function terminates and is adequate; memo laws) + extraction-based differential correspondence",
+    design="4/C14")
+CHECKS["C12"] = dict(
+    text="validate() modelled as one traversal with a parallel composition of abstract non-editing rule visitors (private state, SKIP/BREAK) and an error sink with limit; proved for all rule sets and documents: limit = prefix + abort notice, together = per-rule projection / permutation of alone (general, incl. SKIP and BREAK), excluded (description) slots never visited. The concrete rules, TypeInfo and the context caches are not modelled: rule independence, determinism, non-mutation and invariance under reprint/ignored characters/descriptions/location-free ASTs are searched for counterexamples on the implementation (every specified rule alone vs together, subsets, orderings, max_errors, metamorphic rewrites, snapshots)",
+    note="rules are abstract in the theorems; that each concrete rule only depends on its own state and the node is checked by the alone-vs-together correspondence, not proved per rule; messages compared implementation-vs-implementation only, locations as AST node paths; 'never raises' is C01's subject",
+    technique="Coq proof (composition mechanism: limit, projection, permutation) + alone-vs-together and metamorphic exploration",
+    design="4/C12")
+
+CHECKS["C16"] = dict(
+    text="Coq theorems (12, closed) over a model of scalars.py, enum lookup and complete_leaf_value with floats as exact dyadics: Int results within 32 bits, Float finite, String/ID text, Boolean bool, enum a declared name (Python equality True == 1 == 1.0 on hashable and unhashable paths); an int is accepted by Float exactly when exactly representable in binary64 and the emitted float has that value; float->Int / number->ID only for integral floats; every emitted value is re-accepted by the same type's input coercion with the same meaning; otherwise an error. Tied by extraction-based correspondence against coerce_output_value and execute_sync over a value universe (bools, huge ints, edge floats, numeric-looking strings, bytes, containers, objects) plus direct predicates",
+    note="CPython's int(str), float(str), float repr and the int-to-string digit limit are per-case oracles (theorems hold for every oracle); custom scalars and Python Enum members not modelled",
+    technique="Coq proof (scalar/enum domains, precision, re-acceptance) + extraction-based correspondence",
+    design="4/C16")
+CHECKS["C15"] = dict(
+    text="Coq theorems (8, closed): coerce_input_value / coerce_input_literal are Invalid exactly when validate_input_value / validate_input_literal report (literal version under hypotheses shown necessary by counterexample theorems); results conform to the type (32-bit Int, finite Float, declared enum value, exactly the declared fields with defaults applied, exactly one non-null OneOf entry, no null under non-null); value -> literal -> coerce round trip; variable coercion yields errors or a conforming value; answers are fuel-independent once settled. Tied by extraction-based correspondence against the seven real functions and execute_sync on generated input types x values x literals x variable maps (valid bit, coerced value, error paths)",
+    note="C15_rule_agrees_partial: the static literal validator agrees with coercion on constants, but the ValuesOfCorrectTypeRule traversal (TypeInfo + visitor) is tied by correspondence only; fragment: built-in scalars, enums, recursive and OneOf input objects with literal defaults; fragment variables, custom scalars, out_name, max_errors, stateful iterators, non-str dict keys not modelled; no closed-form fuel bound (stability only)",
+    technique="Coq proof (coerce/validate agreement, conformance, round trip) + extraction-based correspondence",
+    design="4/C15")
+
 NOT_YET = {}
 
 
